@@ -35,6 +35,7 @@
 #include <cstdlib>
 #include <cmath>
 #include <iostream>
+#include <limits>
 #include <map>
 #include <optional>
 #include <cstdio>
@@ -62,7 +63,7 @@ struct Rec {
     std::string rs = "*";    // region set item ("*" = defaulted) or region array name (OPERATER)
 };
 
-enum class KT { BOX, ENDBOX, DATD, DATI, SCAL, COPY, OPER, SREG, CREG, OPRR };
+enum class KT { BOX, ENDBOX, DATD, DATI, SCAL, COPY, OPER, SREG, CREG, OPRR, TDAT };   // TDAT: TRANX/TRANY/TRANZ data keyword (EDIT)
 
 struct KwOp {
     KT type;
@@ -79,7 +80,14 @@ struct Case {
     std::vector<int> actnum;
     bool writeActnum = true;
     std::vector<KwOp> sec[5];
+    std::string units = "METRIC";       // unit system of the deck (RUNSPEC keyword)
+    std::vector<double> tranData;       // one value per GLOBAL cell: the array the simulator hands to apply_tran (empty: no TRAN probe)
+    std::vector<KwOp> sched;            // SCHEDULE-section keywords handed to EclipseState::apply_schedule_keywords (BOX/ENDBOX/DATD)
 };
+
+static bool isTranName(const std::string& n) { return n == "TRANX" || n == "TRANY" || n == "TRANZ"; }
+static int tranDir(const std::string& n) { return n == "TRANX" ? 0 : n == "TRANY" ? 1 : n == "TRANZ" ? 2 : 3; }
+static const char* TRAN_NAME[3] = { "TRANX", "TRANY", "TRANZ" };
 
 struct DInfo { std::optional<double> init; bool mult = false, top = false, glob = false, hasUnit = false; double scale = 1, offset = 0; };
 
@@ -87,8 +95,17 @@ static std::map<std::string, DInfo> DBL;                    // declared double k
 static std::map<std::string, std::optional<int>> INTS;      // declared int keywords
 static std::vector<std::string> DBL_ORDER, INT_ORDER;
 
-static void declareKeywords() {
-    UnitSystem us(UnitSystem::UnitType::UNIT_TYPE_METRIC);
+// The tables per unit system; `DBL` is the one of the case being generated / interpreted (useUnits).  Decks of
+// different unit systems are interleaved within one process: whatever the code memoises per process (SI factors,
+// keyword defaults) is read back under another unit system.
+static std::map<std::string, std::map<std::string, DInfo>> DBL_BY_UNITS;
+static std::map<std::string, double> TRAN_F;      // SI factor of measure::transmissibility
+static double TRAN_SI = 0;
+static std::string CUR_UNITS;
+static void useUnits(const std::string& u);
+
+static void declareKeywordsFor(const std::string& uname, const UnitSystem& us) {
+    DBL.clear(); DBL_ORDER.clear(); INTS.clear(); INT_ORDER.clear();
     for (const char* k : { "PORO", "NTG", "PERMX", "PERMY", "PERMZ", "MULTX", "MULTY", "MULTX-", "MULTZ", "MULTZ-", "MULTPV",
                            "DISPERC", "SWATINIT", "PRESSURE", "SWAT", "SGAS", "SSOL", "RS", "SALT" }) {
         if (!FieldProps::supported<double>(k)) throw std::logic_error(std::string("not a double keyword: ") + k);
@@ -107,7 +124,18 @@ static void declareKeywords() {
         INTS[k] = Fieldprops::keywords::global_kw_info<int>(k).scalar_init;
         INT_ORDER.push_back(k);
     }
+    DBL_BY_UNITS[uname] = DBL;
+    TRAN_F[uname] = us.to_si(UnitSystem::measure::transmissibility, 1.0);
 }
+
+static void declareKeywords() {
+    declareKeywordsFor("FIELD", UnitSystem::newFIELD());
+    declareKeywordsFor("LAB", UnitSystem::newLAB());
+    declareKeywordsFor("METRIC", UnitSystem(UnitSystem::UnitType::UNIT_TYPE_METRIC));
+    useUnits("METRIC");
+}
+
+static void useUnits(const std::string& u) { if (u == CUR_UNITS) return; DBL = DBL_BY_UNITS.at(u); TRAN_SI = TRAN_F.at(u); CUR_UNITS = u; }
 
 // data keywords accepted by scan<SECTION>Section (index = section)
 static const std::vector<std::string> DATA_D[5] = {
@@ -161,7 +189,7 @@ static std::string dataText(const std::vector<DCell>& d, bool isInt) {
 static std::string deckText(const Case& c) {
     std::ostringstream o;
     const int n = c.nx * c.ny * c.nz;
-    o << "RUNSPEC\nDIMENS\n " << c.nx << " " << c.ny << " " << c.nz << " /\nOIL\nWATER\nGAS\nMETRIC\n";
+    o << "RUNSPEC\nDIMENS\n " << c.nx << " " << c.ny << " " << c.nz << " /\nOIL\nWATER\nGAS\n" << c.units << "\n";
     o << "GRID\nDX\n " << n << "*1 /\nDY\n " << n << "*1 /\nDZ\n " << n << "*1 /\nTOPS\n " << c.nx * c.ny << "*1000 /\n";
     for (int s = 0; s < 5; ++s) {
         if (s > 0) o << SECNAME[s] << "\n";
@@ -169,7 +197,7 @@ static std::string deckText(const Case& c) {
             switch (k.type) {
             case KT::BOX: o << "BOX\n" << boxText(k.box) << " /\n"; break;
             case KT::ENDBOX: o << "ENDBOX\n"; break;
-            case KT::DATD: o << k.name << "\n" << dataText(k.data, false) << " /\n"; break;
+            case KT::DATD: case KT::TDAT: o << k.name << "\n" << dataText(k.data, false) << " /\n"; break;
             case KT::DATI: o << k.name << "\n" << dataText(k.data, true) << " /\n"; break;
             case KT::SCAL:
                 o << k.name << "\n";
@@ -253,6 +281,7 @@ static std::string caseTokens(const Case& c) {
                 o << " CREG " << k.recs.size();
                 for (const auto& r : k.recs) o << " " << r.b << " " << r.a << " " << r.rv << " " << r.rs;
                 break;
+            case KT::TDAT: break;   // never reached: caseTokens gets the case stripped of the TRAN edits (stripTran)
             case KT::OPRR:
                 o << " OPRR " << k.recs.size();
                 for (const auto& r : k.recs) o << " " << r.a << " " << r.rv << " " << r.fn << " " << r.b << " " << vh::hexF64(r.val) << " " << vh::hexF64(r.val2) << " " << r.rs;
@@ -274,6 +303,14 @@ struct Outcome {
     std::vector<int> act;
     std::map<std::string, Obs<double>> d;
     std::map<std::string, Obs<int>> i;
+    // transmissibility calculators (only when the case carries tranData)
+    struct TranObs { bool active = false; std::vector<std::pair<std::string, std::string>> actions; std::vector<double> out; };
+    bool hasTran = false;
+    TranObs tran[3];
+    std::vector<int> act0;              // ACTNUM of the grid while GRID/EDIT are scanned (pre-pass), before the PORV update
+    // SCHEDULE-section multipliers (only when the case carries sched keywords)
+    bool hasSched = false, schedOk = false;
+    std::vector<std::pair<std::string, std::vector<OCell<double>>>> schedPre, schedPost;
 };
 
 static char stLetter(value::status s) {
@@ -330,7 +367,20 @@ static Parser& theParser() { static Parser p; return p; }
 // orchestration finds the killing input there (lib/vlib.py: _keep_current_input)
 static std::string CURRENT_INPUT;
 
-static Outcome runReal(const std::string& deckStr, int ncells) {
+static std::string schedText(const Case& c);
+static const char* SCHED_MULT[6] = { "MULTX", "MULTX-", "MULTY", "MULTY-", "MULTZ", "MULTZ-" };
+static std::string tranOpName(Fieldprops::ScalarOperation op) {
+    switch (op) {
+    case Fieldprops::ScalarOperation::ADD: return "ADD";
+    case Fieldprops::ScalarOperation::EQUAL: return "EQUAL";
+    case Fieldprops::ScalarOperation::MUL: return "MUL";
+    case Fieldprops::ScalarOperation::MIN: return "MIN";
+    case Fieldprops::ScalarOperation::MAX: return "MAX";
+    }
+    return "?";
+}
+
+static Outcome runReal(const std::string& deckStr, int ncells, const Case* tc = nullptr) {
     Outcome r;
     if (!CURRENT_INPUT.empty()) vh::spit(CURRENT_INPUT, deckStr);
     try {
@@ -362,7 +412,48 @@ static Outcome runReal(const std::string& deckStr, int ncells) {
             }
             r.i[k] = o;
         }
+        if (tc && !tc->tranData.empty()) {
+            // the simulator's view of the TRANX/TRANY/TRANZ edits: action lists and their application to an array it supplies
+            EclipseGrid g0(deck);
+            r.act0 = g0.getACTNUM();
+            if (r.act0.empty()) r.act0.assign(ncells, 1);
+            for (auto& a : r.act0) a = a ? 1 : 0;
+            const auto& tr = fp.getTran();
+            for (int d = 0; d < 3; ++d) {
+                auto& o = r.tran[d];
+                o.active = fp.tran_active(TRAN_NAME[d]);
+                for (const auto& a : tr.at(TRAN_NAME[d])) o.actions.push_back({ tranOpName(a.op), a.field });
+                for (size_t g = 0; g < r.act.size(); ++g) if (r.act[g]) o.out.push_back(tc->tranData[g]);
+                if (o.out.size() != fp.active_size()) throw std::logic_error("active size");
+                fp.apply_tran(TRAN_NAME[d], o.out);
+            }
+            r.hasTran = true;
+        }
         r.ok = true;
+        if (tc && !tc->sched.empty()) {
+            // SCHEDULE-section multipliers: state of the six arrays before and after apply_schedule_keywords
+            auto snap = [&fp](std::vector<std::pair<std::string, std::vector<OCell<double>>>>& out) {
+                for (const char* k : SCHED_MULT) {
+                    if (!fp.has_double(k)) continue;
+                    const auto& fd = fp.get_double_field_data(k, true);
+                    std::vector<OCell<double>> cells;
+                    for (size_t j = 0; j < fd.data.size(); ++j) cells.push_back({ stLetter(fd.value_status[j]), fd.data[j] });
+                    out.push_back({ k, cells });
+                }
+            };
+            r.hasSched = true;
+            snap(r.schedPre);
+            try {
+                ParseContext pc2;
+                ErrorGuard eg2;
+                auto sdeck = theParser().parseString(schedText(*tc), pc2, eg2);
+                std::vector<DeckKeyword> kws;
+                for (const auto& kw : sdeck) if (kw.name() != "SCHEDULE") kws.push_back(kw);
+                es.apply_schedule_keywords(kws);
+                r.schedOk = true;
+                snap(r.schedPost);
+            } catch (const std::exception&) { r.schedOk = false; }
+        }
     } catch (const std::exception&) {
         r = Outcome{};
     }
@@ -1994,6 +2085,360 @@ static Outcome runRefCounting(std::map<std::string, long>& st, const Case& c) {
     return r;
 }
 
+
+// ---------------------------------------------------------------------------------------------
+// Transmissibility calculators (TRANX/TRANY/TRANZ edited in EDIT) and SCHEDULE-section multipliers.
+//
+// TRAN edits are INJECTED into the EDIT section of the ordinary random cases, interleaved with the edits of ordinary
+// arrays (also as extra records of existing EQUALS/ADD/… keywords), several boxes, the same keyword more than once.
+// The ordinary arrays are still checked against the model / reference interpreter on the case with the TRAN edits
+// stripped (a TRAN edit must not change any ordinary array); the calculators are checked on their own protocol line.
+
+// section box tracking with the semantics of Box::update (all items defaulted: keep; otherwise defaulted = grid extent)
+struct BoxTrack {
+    int nx, ny, nz, b[6];
+    BoxTrack(const Case& c) : nx(c.nx), ny(c.ny), nz(c.nz) { global(); }
+    void global() { b[0] = 0; b[1] = nx - 1; b[2] = 0; b[3] = ny - 1; b[4] = 0; b[5] = nz - 1; }
+    bool update(const BoxItems& r) {
+        if (allDefaulted(r)) return true;
+        const int dims[3] = { nx, ny, nz };
+        int nb[6];
+        for (int k = 0; k < 6; ++k) nb[k] = r.v[k] ? *r.v[k] - 1 : (k % 2 == 0 ? 0 : dims[k / 2] - 1);
+        for (int a = 0; a < 3; ++a) if (nb[2 * a] < 0 || nb[2 * a] > nb[2 * a + 1] || nb[2 * a + 1] >= dims[a]) return false;
+        for (int k = 0; k < 6; ++k) b[k] = nb[k];
+        return true;
+    }
+    int size() const { return (b[1] - b[0] + 1) * (b[3] - b[2] + 1) * (b[5] - b[4] + 1); }
+    template <class F> void each(F f) const {
+        int pos = 0;
+        for (int k = b[4]; k <= b[5]; ++k) for (int j = b[2]; j <= b[3]; ++j) for (int i = b[0]; i <= b[1]; ++i) f(i + nx * (j + ny * k), pos++);
+    }
+};
+
+static BoxItems validBox(vh::Rng& rng, const Case& c, std::vector<BoxItems>& used) {
+    BoxItems b;
+    if (!used.empty() && rng.coin(1, 5)) return rng.pick(used);     // the same box again
+    const int dims[3] = { c.nx, c.ny, c.nz };
+    const int mode = rng.range(0, 9);
+    if (mode <= 1) return b;                                        // all six defaulted: the previous record's / section's box
+    for (int a = 0; a < 3; ++a) {
+        int lo = rng.range(1, dims[a]), hi = rng.range(1, dims[a]);
+        if (lo > hi) std::swap(lo, hi);
+        if (rng.coin(1, 4)) { lo = 1; hi = dims[a]; }
+        if (mode <= 4 && rng.coin(1, 3)) { if (rng.coin()) b.v[2 * a] = lo; else b.v[2 * a + 1] = hi; continue; }   // partly defaulted
+        if (mode <= 4 && rng.coin(1, 4)) continue;
+        b.v[2 * a] = lo; b.v[2 * a + 1] = hi;
+    }
+    used.push_back(b);
+    return b;
+}
+
+static double tranValue(vh::Rng& rng) { return rng.coin(1, 8) ? 0.0 : rng.range(1, 96) / 8.0; }
+
+static void injectTran(Case& c, vh::Rng& rng, std::map<std::string, long>& st) {
+    static const std::vector<std::string> OPS = { "EQUALS", "ADD", "MULTIPLY", "MINVALUE", "MAXVALUE" };
+    const int n = c.nx * c.ny * c.nz;
+    c.tranData.resize(n);
+    for (auto& v : c.tranData) v = rng.range(1, 400) / 4.0;
+    auto& ed = c.sec[1];
+    std::vector<BoxItems> used;
+    std::string lastOp; int lastDir = rng.range(0, 2);
+    const int nins = rng.coin(1, 6) ? 0 : rng.range(1, 6);
+    for (int q = 0; q < nins; ++q) {
+        const int kind = rng.range(0, 9);
+        if (kind <= 1 && !ed.empty()) {
+            // extra TRAN records in an existing EQUALS/ADD/… keyword of EDIT: at the end, or before a record that names its box
+            std::vector<size_t> cand;
+            for (size_t j = 0; j < ed.size(); ++j) if (ed[j].type == KT::SCAL) cand.push_back(j);
+            if (!cand.empty()) {
+                auto& k = ed[rng.pick(cand)];
+                Rec r; r.a = TRAN_NAME[rng.coin(2, 3) ? lastDir : rng.range(0, 2)]; r.val = tranValue(rng); r.box = validBox(rng, c, used);
+                std::vector<size_t> pos = { k.recs.size() };
+                for (size_t j = 0; j < k.recs.size(); ++j) if (!allDefaulted(k.recs[j].box)) pos.push_back(j);
+                k.recs.insert(k.recs.begin() + rng.pick(pos), r);
+                st["tran.gen.record-in-existing-keyword"]++;
+                continue;
+            }
+        }
+        // position: anywhere in EDIT (the section box there is found by replaying BOX/ENDBOX)
+        const size_t at = rng.below(ed.size() + 1);
+        BoxTrack bt(c);
+        bool okPos = true;
+        for (size_t j = 0; j < at && okPos; ++j) {
+            if (ed[j].type == KT::BOX) okPos = bt.update(ed[j].box);
+            else if (ed[j].type == KT::ENDBOX) bt.global();
+        }
+        if (!okPos) continue;       // behind an invalid BOX the deck is rejected anyway
+        KwOp k;
+        if (kind <= 4) {
+            k.type = KT::TDAT; k.name = TRAN_NAME[rng.coin() ? lastDir : rng.range(0, 2)];
+            lastDir = tranDir(k.name);
+            k.data.resize(bt.size());
+            const int style = rng.range(0, 3);
+            for (auto& d : k.data) {
+                if (style == 0 || (style == 1 && rng.coin(1, 3)) || (style == 2 && rng.coin(3, 4))) d.st = 'e';
+                else { d.st = 'v'; d.d = tranValue(rng); }
+            }
+            st["tran.gen.data-keyword"]++;
+            if (bt.size() != n) st["tran.gen.data-keyword-in-box"]++;
+        } else {
+            k.type = KT::SCAL;
+            k.name = (!lastOp.empty() && rng.coin(1, 3)) ? lastOp : rng.pick(OPS);
+            if (k.name == lastOp) st["tran.gen.same-operation-again"]++;
+            lastOp = k.name;
+            const int nrec = rng.range(1, 4);
+            bool prevTran = false;
+            for (int j = 0; j < nrec; ++j) {
+                Rec r;
+                r.box = validBox(rng, c, used);
+                if (rng.coin(1, 6)) {
+                    // an ordinary array in the same keyword (multipliers are exempt from the "must already exist" rule)
+                    r.a = rng.pick(std::vector<std::string>{ "MULTX", "MULTY", "MULTZ", "MULTX-" });
+                    r.val = rng.range(0, 16) / 8.0;
+                    if (prevTran && allDefaulted(r.box)) r.box.v[0] = 1;      // keep the stripped case equivalent for the ordinary arrays
+                    prevTran = false;
+                    st["tran.gen.ordinary-record-in-tran-keyword"]++;
+                } else {
+                    r.a = TRAN_NAME[rng.coin(2, 3) ? lastDir : rng.range(0, 2)];
+                    lastDir = tranDir(r.a);
+                    r.val = tranValue(rng);
+                    prevTran = true;
+                }
+                k.recs.push_back(r);
+            }
+            st["tran.gen.operation-keyword"]++;
+        }
+        ed.insert(ed.begin() + at, k);
+    }
+}
+
+// the case without its TRAN edits (what the ordinary arrays see)
+static Case stripTran(const Case& c) {
+    Case o = c;
+    o.tranData.clear();
+    std::vector<KwOp> ed;
+    for (const auto& k : c.sec[1]) {
+        if (k.type == KT::TDAT) continue;
+        if (k.type != KT::SCAL) { ed.push_back(k); continue; }
+        KwOp kk = k;
+        kk.recs.clear();
+        for (const auto& r : k.recs) if (!isTranName(r.a)) kk.recs.push_back(r);
+        if (!kk.recs.empty() || k.recs.empty()) ed.push_back(kk);
+    }
+    o.sec[1] = ed;
+    return o;
+}
+
+static bool hasTranRec(const KwOp& k) { for (const auto& r : k.recs) if (isTranName(r.a)) return true; return false; }
+
+// fieldprops.tranI / fieldprops.tranR <this>
+static std::string tranTokens(const Case& c, const std::vector<int>& a0, const std::vector<int>& a1) {
+    std::ostringstream o;
+    o << c.nx << " " << c.ny << " " << c.nz << " ";
+    for (int a : a0) o << (a ? '1' : '0');
+    o << " ";
+    for (int a : a1) o << (a ? '1' : '0');
+    o << " " << vh::hexF64(1.0) << " " << vh::hexF64(std::numeric_limits<double>::max()) << " " << vh::hexF64(std::numeric_limits<double>::lowest())
+      << " " << vh::hexF64(TRAN_SI);
+    for (const auto& k : c.sec[1]) {
+        if (k.type == KT::BOX) o << " BOX" << boxTok(k.box);
+        else if (k.type == KT::ENDBOX) o << " ENDBOX";
+        else if (k.type == KT::TDAT) {
+            o << " TDAT " << tranDir(k.name) << " " << k.data.size();
+            for (const auto& d : k.data) { if (d.st == 'e') o << " e"; else o << " " << d.st << vh::hexF64(d.d); }
+        } else if (k.type == KT::SCAL && hasTranRec(k)) {
+            o << " TOP " << k.name << " " << k.recs.size();
+            for (const auto& r : k.recs) o << " " << tranDir(r.a) << " " << vh::hexF64(r.val) << boxTok(r.box);
+        }
+    }
+    o << " X";
+    for (double v : c.tranData) o << " " << vh::hexF64(v);
+    return o.str();
+}
+
+static std::string showTran(const Outcome& r) {
+    std::string s = "ok";
+    for (int d = 0; d < 3; ++d) {
+        const auto& o = r.tran[d];
+        s += std::string(" ") + (o.active ? "1" : "0") + ":";
+        std::string a;
+        for (const auto& p : o.actions) { if (!a.empty()) a += ","; a += p.first + "." + p.second; }
+        s += (a.empty() ? "-" : a) + ":";
+        std::string h;
+        for (double v : o.out) h += hexCanon(v);
+        s += h.empty() ? "-" : h;
+    }
+    return s;
+}
+
+// The property's own statement for the calculators, in plain C++ on the GLOBAL grid: every record of every keyword is
+// applied, in input order, directly to the array handed in, cell by cell over the record's box.  `loose[d][g]` marks
+// cells where one ADD / MULTIPLY keyword covers the cell with two or more records: the code combines those inside
+// the scratch array first ((v1 + v2) + x instead of (x + v1) + v2), which may differ in the last bits.
+struct TranRef { std::vector<double> v[3]; std::vector<char> loose[3]; int nact[3] = { 0, 0, 0 }; };
+static TranRef tranReference(const Case& c) {
+    TranRef t;
+    const int n = c.nx * c.ny * c.nz;
+    for (int d = 0; d < 3; ++d) { t.v[d] = c.tranData; t.loose[d].assign(n, 0); }
+    BoxTrack sec(c);
+    for (const auto& k : c.sec[1]) {
+        if (k.type == KT::BOX) { if (!sec.update(k.box)) throw RefErr{}; }
+        else if (k.type == KT::ENDBOX) sec.global();
+        else if (k.type == KT::TDAT) {
+            const int d = tranDir(k.name);
+            if ((int) k.data.size() != sec.size()) throw RefErr{};
+            sec.each([&](int g, int pos) { if (k.data[pos].st == 'v') t.v[d][g] = k.data[pos].d * TRAN_SI; });
+            t.nact[d]++;
+        } else if (k.type == KT::SCAL && hasTranRec(k)) {
+            BoxTrack rb = sec;
+            bool seen[3] = { false, false, false };
+            std::vector<int> cover[3];
+            for (const auto& r : k.recs) {
+                if (!rb.update(r.box)) throw RefErr{};
+                const int d = tranDir(r.a);
+                if (d > 2) continue;
+                if (!seen[d]) { seen[d] = true; t.nact[d]++; cover[d].assign(n, 0); }
+                const double x = (k.name == "MULTIPLY") ? r.val : r.val * TRAN_SI;
+                rb.each([&](int g, int) {
+                    double& v = t.v[d][g];
+                    if (k.name == "EQUALS") v = x;
+                    else if (k.name == "ADD") v += x;
+                    else if (k.name == "MULTIPLY") v *= x;
+                    else if (k.name == "MINVALUE") v = std::max(v, x);
+                    else if (k.name == "MAXVALUE") v = std::min(v, x);
+                    if ((k.name == "ADD" || k.name == "MULTIPLY") && ++cover[d][g] >= 2) t.loose[d][g] = 1;
+                });
+            }
+        }
+    }
+    return t;
+}
+
+static bool closeEnough(double a, double b) { return a == b || std::fabs(a - b) <= 8 * std::numeric_limits<double>::epsilon() * std::max(std::fabs(a), std::fabs(b)); }
+
+// ---- SCHEDULE-section multipliers
+
+static void genSched(Case& c, vh::Rng& rng, std::map<std::string, long>& st) {
+    BoxTrack bt(c);
+    std::vector<BoxItems> used;
+    const int nk = rng.range(0, 6);
+    std::string last;
+    for (int q = 0; q < nk; ++q) {
+        KwOp k;
+        const int kind = rng.range(0, 9);
+        if (kind == 0) { k.type = KT::BOX; k.box = validBox(rng, c, used); bt.update(k.box); }
+        else if (kind == 1) { k.type = KT::ENDBOX; bt.global(); }
+        else {
+            k.type = KT::DATD;
+            k.name = (!last.empty() && rng.coin(1, 3)) ? last : std::string(SCHED_MULT[rng.range(0, 5)]);
+            if (k.name == last) st["sched.gen.same-keyword-again"]++;
+            last = k.name;
+            int cnt = bt.size();
+            if (rng.coin(1, 20)) { cnt += rng.coin() ? 1 : -1; st["sched.gen.wrong-count"]++; }
+            k.data.resize(std::max(cnt, 0));
+            for (auto& d : k.data) {
+                if (rng.coin(1, 5)) { d.st = 'd'; d.d = 1.0; }       // n*: the parser's keyword default
+                else { d.st = 'v'; d.d = rng.range(0, 24) / 8.0; }
+            }
+            st["sched.gen.data-keyword"]++;
+        }
+        c.sched.push_back(k);
+    }
+    if (c.sched.empty()) { KwOp k; k.type = KT::ENDBOX; c.sched.push_back(k); st["sched.gen.no-data-keyword"]++; }
+}
+
+static std::string schedText(const Case& c) {
+    std::ostringstream o;
+    o << "SCHEDULE\n";
+    for (const auto& k : c.sched) {
+        if (k.type == KT::BOX) o << "BOX\n" << boxText(k.box) << " /\n";
+        else if (k.type == KT::ENDBOX) o << "ENDBOX\n";
+        else o << k.name << "\n" << dataText(k.data, false) << " /\n";
+    }
+    return o.str();
+}
+
+static std::string cellsHex(const std::vector<OCell<double>>& cs) {
+    std::string s;
+    for (const auto& x : cs) s += std::string(1, x.st) + hexCanon(x.v);
+    return s.empty() ? "-" : s;
+}
+
+static std::string schedTokens(const Case& c, const Outcome& r) {
+    std::ostringstream o;
+    o << c.nx << " " << c.ny << " " << c.nz << " ";
+    for (int a : r.act) o << (a ? '1' : '0');
+    o << " " << vh::hexF64(1.0);
+    for (const auto& p : r.schedPre) {
+        o << " ARR " << p.first << " " << p.second.size();
+        for (const auto& x : p.second) o << " " << x.st << vh::hexF64(x.v);
+    }
+    o << " K";
+    for (const auto& k : c.sched) {
+        if (k.type == KT::BOX) o << " BOX" << boxTok(k.box);
+        else if (k.type == KT::ENDBOX) o << " ENDBOX";
+        else {
+            o << " DATD " << k.name << " " << k.data.size();
+            for (const auto& d : k.data) { if (d.st == 'e') o << " e"; else o << " " << d.st << vh::hexF64(d.d); }
+        }
+    }
+    o << " END";
+    return o.str();
+}
+
+// arrays in the order the model lists them: those that existed, then the new ones in order of first appearance
+static std::string showSched(const Case& c, const Outcome& r) {
+    if (!r.schedOk) return "err";
+    std::vector<std::string> names;
+    for (const auto& p : r.schedPre) names.push_back(p.first);
+    for (const auto& k : c.sched) if (k.type == KT::DATD && std::find(names.begin(), names.end(), k.name) == names.end()) names.push_back(k.name);
+    std::string s = "ok";
+    for (const auto& nme : names)
+        for (const auto& p : r.schedPost) if (p.first == nme) s += " " + nme + ":" + cellsHex(p.second);
+    return s;
+}
+
+// the statement for the SCHEDULE multipliers in plain C++ (global grid): every array that exists restarts from 1,
+// every data keyword multiplies its entries into the cells of the current box, in input order
+static std::string schedReference(const Case& c, const Outcome& r) {
+    const int n = c.nx * c.ny * c.nz;
+    std::vector<std::string> names;
+    std::map<std::string, std::vector<OCell<double>>> a;
+    for (const auto& p : r.schedPre) { names.push_back(p.first); a[p.first].assign(n, OCell<double>{ 'd', 1.0 }); }
+    BoxTrack bt(c);
+    for (const auto& k : c.sched) {
+        if (k.type == KT::BOX) { if (!bt.update(k.box)) return "err"; }
+        else if (k.type == KT::ENDBOX) bt.global();
+        else {
+            if ((int) k.data.size() != bt.size()) return "err";
+            if (!a.count(k.name)) { names.push_back(k.name); a[k.name].assign(n, OCell<double>{ 'd', 1.0 }); }
+            auto& x = a[k.name];
+            bt.each([&](int g, int pos) { x[g].v *= k.data[pos].d; x[g].st = k.data[pos].st; });
+        }
+    }
+    std::string s = "ok";
+    for (const auto& nme : names) {
+        std::vector<OCell<double>> act;
+        for (int g = 0; g < n; ++g) if (r.act[g]) act.push_back(a[nme][g]);
+        s += " " + nme + ":" + cellsHex(act);
+    }
+    return s;
+}
+
+static const char* UNITS_OF[4] = { "METRIC", "FIELD", "LAB", "METRIC" };
+
+// one random case of the run: unit system (interleaved within the process), ordinary program, TRAN edits, SCHEDULE keywords
+static Case fullCase(Gen& gen, vh::Rng& rng, std::map<std::string, long>& st) {
+    const std::string u = UNITS_OF[rng.range(0, 3)];
+    useUnits(u);
+    st["units." + u]++;
+    Case c = gen.randCase(true);
+    c.units = u;
+    injectTran(c, rng, st);
+    if (rng.coin(1, 3)) genSched(c, rng, st);
+    return c;
+}
+
 // ---------------------------------------------------------------------------------------------
 // Fixed witnesses of the three defects found while building this check (design.d/C12.md; fixed in the code by
 // 5ceb9fc1d, d8c0ea4e0, 0679405ff).  Always evaluated by property mode.
@@ -2116,16 +2561,31 @@ int main(int argc, char** argv) {
         Gen gen(rng, sink.stats);
         const int n = ncases(tier, 350, 4000);
         for (int j = 0; j < n; ++j) {
-            Case c = gen.randCase(true);
-            countCase(sink.stats, c);
-            (void) runRefCounting(sink.stats, c);
+            const Case c = fullCase(gen, rng, sink.stats);
+            const Case plain = stripTran(c);        // what the ordinary arrays see
+            countCase(sink.stats, plain);
+            (void) runRefCounting(sink.stats, plain);
             const std::string deck = deckText(c);
-            const Outcome real = runReal(deck, c.nx * c.ny * c.nz);
+            const Outcome real = runReal(deck, c.nx * c.ny * c.nz, &c);
             const std::string ans = showOutcome(real);
-            const std::string toks = caseTokens(c);
+            const std::string toks = caseTokens(plain);
             sink.emit("fieldprops.impl " + toks, ans);
             sink.emit("fieldprops.ref " + toks, ans);
             sink.count(real.ok ? "answer.ok" : "answer.err");
+            if (real.ok && real.hasTran) {
+                const std::string tt = tranTokens(c, real.act0, real.act), ta = showTran(real);
+                sink.emit("fieldprops.tranI " + tt, ta);
+                sink.emit("fieldprops.tranR " + tt, ta);
+                sink.count("tran.lines");
+                for (int d = 0; d < 3; ++d) sink.count("tran.actions." + std::to_string(std::min<size_t>(real.tran[d].actions.size(), 4)));
+                if (real.act0 != real.act) sink.count("tran.cells-removed-after-edit");
+            }
+            if (real.ok && real.hasSched) {
+                const std::string stt = schedTokens(c, real), sa = showSched(c, real);
+                sink.emit("fieldprops.schedI " + stt, sa);
+                sink.emit("fieldprops.schedR " + stt, sa);
+                sink.count(real.schedOk ? "sched.ok" : "sched.err");
+            }
             if (j < 3) vh::spit(outdir + "/sample" + std::to_string(j) + ".DATA", deck);
         }
         // Box::initIndexList on its own: the real Box class with an arbitrary active map, every triple compared
@@ -2223,12 +2683,54 @@ int main(int argc, char** argv) {
         runWitnesses(log, stats);
         const int n = ncases(tier, 300, 3500);
         for (int j = 0; j < n; ++j) {
-            Case c = gen.randCase(true);
-            countCase(stats, c);
+            const Case c = fullCase(gen, rng, stats);
+            const Case plain = stripTran(c);
+            countCase(stats, plain);
             const std::string deck = deckText(c);
             const std::string key = "case" + std::to_string(j);
-            const Outcome real = runReal(deck, c.nx * c.ny * c.nz);
-            const Outcome ref = runRefCounting(stats, c);
+            const Outcome real = runReal(deck, c.nx * c.ny * c.nz, &c);
+            const Outcome ref = runRefCounting(stats, plain);
+            // (1t) transmissibility calculators: every record of every TRAN keyword applied in input order, cell by cell,
+            // to the array handed in; one action per keyword and direction; an untouched direction is inactive and the identity
+            if (real.ok && real.hasTran) {
+                std::string why;
+                try {
+                    const TranRef t = tranReference(c);
+                    for (int d = 0; d < 3 && why.empty(); ++d) {
+                        const auto& o = real.tran[d];
+                        if ((int) o.actions.size() != t.nact[d]) why = std::string(TRAN_NAME[d]) + ": " + std::to_string(o.actions.size()) + " actions recorded, " + std::to_string(t.nact[d]) + " keywords name it";
+                        if (o.active != (t.nact[d] > 0)) why = std::string(TRAN_NAME[d]) + ": tran_active wrong";
+                        std::set<std::string> names;
+                        for (const auto& a : o.actions) names.insert(a.second);
+                        if (names.size() != o.actions.size()) why = std::string(TRAN_NAME[d]) + ": scratch array name used twice";
+                        size_t ai = 0;
+                        for (size_t g = 0; g < real.act.size() && why.empty(); ++g) {
+                            if (!real.act[g]) continue;
+                            const double x = o.out[ai++], y = t.v[d][g];
+                            const bool same = t.loose[d][g] ? closeEnough(x, y) : hexCanon(x) == hexCanon(y);
+                            if (!same) why = std::string(TRAN_NAME[d]) + " global cell " + std::to_string(g) + ": real " + hexCanon(x) + " sequential " + hexCanon(y);
+                            if (t.nact[d] == 0 && hexCanon(x) != hexCanon(c.tranData[g])) why = std::string(TRAN_NAME[d]) + ": no edit but cell " + std::to_string(g) + " changed";
+                            stats[t.loose[d][g] ? "tran.cells.compared-loosely" : "tran.cells.compared-bitwise"]++;
+                        }
+                    }
+                } catch (const RefErr&) { why = "accepted by the real code, a TRAN keyword is rejected by the reference"; }
+                if (!why.empty()) {
+                    vh::spit(outdir + "/" + key + ".DATA", deck);
+                    log.fail("tran.sequential." + key, why + "; deck=" + outdir + "/" + key + ".DATA");
+                } else log.ok();
+                stats["tran.compared"]++;
+            }
+            // (1s) SCHEDULE-section multipliers
+            if (real.ok && real.hasSched) {
+                const std::string x = showSched(c, real), y = schedReference(c, real);
+                if (x != y) {
+                    vh::spit(outdir + "/" + key + ".DATA", deck + schedText(c));
+                    size_t p = 0; while (p < x.size() && p < y.size() && x[p] == y[p]) ++p;
+                    log.fail("sched.sequential." + key, "real and reference differ at char " + std::to_string(p) + ": real=" + x.substr(p > 30 ? p - 30 : 0, 90) +
+                             " ref=" + y.substr(p > 30 ? p - 30 : 0, 90) + " deck=" + outdir + "/" + key + ".DATA");
+                } else log.ok();
+                stats[real.schedOk ? "sched.ok" : "sched.err"]++;
+            }
             // (1) sequential application on the global grid
             const std::string a = showOutcome(real), b = showOutcome(ref);
             if (a != b) {
@@ -2248,7 +2750,8 @@ int main(int argc, char** argv) {
             bool same = true;
             for (int x : c.actnum) same = same && x;
             if (same) continue;
-            const Outcome rf = runReal(deckText(full), c.nx * c.ny * c.nz);
+            Case fullNoSched = full; fullNoSched.sched.clear();
+            const Outcome rf = runReal(deckText(full), c.nx * c.ny * c.nz, &fullNoSched);
             // Documented limitation of the code (FieldProps.cpp, handle_region_operation: "Region operation on 3D
             // field {} with global storage will not update inactive cells"): after EQUALREG/ADDREG/MULTIREG/OPERATER
             // on PERMX/Y/Z or MULTZ the global storage of INACTIVE cells stays undefined, so a later box operation
@@ -2282,6 +2785,16 @@ int main(int argc, char** argv) {
                     const auto& x = ox.cells[posA[g]]; const auto& y = oy.cells[posF[g]];
                     if (x.st != y.st || x.v != y.v) { why = k + " differs in global cell " + std::to_string(g); break; }
                 }
+            }
+            // the calculators applied to the same global array: equal at every cell active in both runs
+            if (why.empty() && real.hasTran && rf.hasTran) {
+                for (int d = 0; d < 3 && why.empty(); ++d) {
+                    if (real.tran[d].actions != rf.tran[d].actions) why = std::string(TRAN_NAME[d]) + ": action list depends on the ACTNUM";
+                    for (size_t g = 0; g < real.act.size() && why.empty(); ++g)
+                        if (real.act[g] && rf.act[g] && hexCanon(real.tran[d].out[posA[g]]) != hexCanon(rf.tran[d].out[posF[g]]))
+                            why = std::string(TRAN_NAME[d]) + " after apply_tran differs in global cell " + std::to_string(g);
+                }
+                stats["inactive.tran-compared"]++;
             }
             if (!why.empty()) {
                 vh::spit(outdir + "/" + key + ".DATA", deck);
